@@ -382,11 +382,35 @@ def _branches(v):
     return [v]
 
 
+_DECIDED = "\u00a7decided"  # a test whose outcome is fixed by the values the path has put in: (_DECIDED, False) cannot be taken
+
+
+def _decided(t):
+    """Outcome of a test that no input can change once the path's own bindings are put in (`None is None`, `{} is
+    None`, a constant): True / False, None when it depends on something."""
+    def fresh(e):
+        return isinstance(e, (ast.Dict, ast.List, ast.Tuple, ast.Set, ast.JoinedStr, ast.ListComp, ast.DictComp, ast.SetComp)) or \
+            (isinstance(e, ast.Constant) and e.value is not None)
+    if isinstance(t, ast.Compare) and len(t.ops) == 1 and isinstance(t.ops[0], (ast.Is, ast.IsNot)):
+        l, r = t.left, t.comparators[0]
+        same = None
+        if A.is_none(l) and A.is_none(r):
+            same = True
+        elif (A.is_none(l) and fresh(r)) or (A.is_none(r) and fresh(l)):
+            same = False
+        if same is not None:
+            return same if isinstance(t.ops[0], ast.Is) else not same
+    return None
+
+
 def _atoms(t, positive):
     """Branch test taken with a polarity -> literals (text, polarity); `not`, `and` taken true / `or` taken false,
     `is not` / `!=` / `not in` are normalised away (same conventions as FA.conditions)."""
     if isinstance(t, ast.UnaryOp) and isinstance(t.op, ast.Not):
         return _atoms(t.operand, not positive)
+    d = _decided(t)
+    if d is not None:
+        return [(_DECIDED, d == positive)]
     if isinstance(t, ast.BoolOp) and ((isinstance(t.op, ast.And) and positive) or (isinstance(t.op, ast.Or) and not positive)):
         out = []
         for v in t.values:
@@ -448,7 +472,7 @@ def _replace(root, old, new):
 
 
 def _consistent(lits, extra) -> bool:
-    return not any((a[0], not a[1]) in lits for a in extra)
+    return not any((a[0], not a[1]) in lits or a == (_DECIDED, False) for a in extra)
 
 
 def _alts(v):
@@ -637,7 +661,7 @@ def _sym_paths(fa: FA, env0=None, stops=(), observe=None, cap=6000):
                 if not _consistent(lits, add) or not all(_consistent(add[:i], [x]) for i, x in enumerate(add)):
                     continue
                 seen[d] = seen.get(d, 0) + 1
-                dfs(d, seen, lits + [x for x in add if x not in lits], env, obs)
+                dfs(d, seen, lits + [x for x in add if x not in lits and x[0] != _DECIDED], env, obs)
                 seen[d] -= 1
 
     dfs(cfg.entry, {cfg.entry: 1}, [], dict(env0 or {}), [])
@@ -828,9 +852,19 @@ def _dump_entries(fa: FA):
         if isinstance(e, ast.Name):
             return {e.id}
         if isinstance(e, ast.Dict):
-            return {v.id for k, v in zip(e.keys, e.values) if k is None and isinstance(v, ast.Name)}
+            out = set()
+            for k, v in zip(e.keys, e.values):
+                if k is None:
+                    out |= bases(v)  # **x, **{k: v for k, v in x.items() if ...}
+            return out
         if isinstance(e, ast.Call) and isinstance(e.func, ast.Name) and e.func.id == "dict":
-            return {a_.id for a_ in e.args if isinstance(a_, ast.Name)} | {k.value.id for k in e.keywords if k.arg is None and isinstance(k.value, ast.Name)}
+            out = set()
+            for a_ in e.args:
+                out |= bases(a_)
+            for k in e.keywords:
+                if k.arg is None:
+                    out |= bases(k.value)
+            return out
         if isinstance(e, ast.Call) and A.call_attr(e) == "copy" and isinstance(A.call_recv(e), ast.Name) and not e.args:
             return {A.call_recv(e).id}
         if isinstance(e, ast.BinOp) and isinstance(e.op, ast.BitOr):
@@ -994,6 +1028,22 @@ def _self_fields_read(fa, e, st):
         if isinstance(x, ast.Attribute) and isinstance(x.value, ast.Name) and x.value.id == "self":
             out.add(x.attr)
     return out
+
+
+def _dumped_from_fields(ck, R1, cls, td, entries, options):
+    holders = _option_fields(ck, cls, options)
+    for e in entries:
+        if e.key not in holders or e.value is None:
+            continue
+        got = _self_fields_read(td, e.value, e.stmt)
+        if not got:
+            continue
+        okh = bool(got & holders[e.key])
+        ck.ob(R1, "%s::dumped-from-its-field::%s" % (cls.qual, e.key), okh,
+              "option %r is dumped from the field that holds it" % e.key if okh else
+              "to_dict writes option %r from %s, while the constructor keeps that option in %s: the environment rebuilt from the dump "
+              "gets another option's value for it" % (e.key, sorted("self." + g for g in got), sorted("self." + h for h in holders[e.key])),
+              td.where(e.stmt))
 
 
 # =====================================================================================================
@@ -1783,13 +1833,28 @@ def _image(fa, e, at, env, srcs, depth=8):
     return None
 
 
+def _value_roots(fa, e, at, depth=4):
+    """What a value can be, read through conditional expressions and through the locals it is handed on by (every
+    definition of the local that reaches the place): the expressions at the far end."""
+    out = []
+    for b in _branches(e):
+        if isinstance(b, ast.Name) and b.id not in fa.fi.params and depth > 0 and at is not None:
+            vals = [(d.value, d.node) for d in fa.df.reaching(at, b.id) if d.kind == "assign" and d.value is not None]
+            if vals:
+                for (v, n_) in vals:
+                    out += _value_roots(fa, v, n_, depth - 1)
+                continue
+        out.append(b)
+    return out
+
+
 def _field_shape(ck, cls, init_fa, field):
     """How a field holds objects that dump themselves: ('one' | 'map' | 'seq', element class) or None.  From the
     declared type of the field, else the annotation of the constructor parameter that is stored in it."""
     texts = [ck.repo.field_type(cls, field)]
     for s in init_fa.stmts(ast.Assign):
         if any(A.dotted(t) == "self." + field for t in s.targets):
-            for b in _branches(s.value):
+            for b in _value_roots(init_fa, s.value, (init_fa.nodes(s) or [None])[0]):
                 if isinstance(b, ast.Name) and b.id in init_fa.fi.params:
                     texts.append(init_fa.fi.param_annotation(b.id))
     for t in texts:
@@ -1842,7 +1907,8 @@ def check_nested_dumps(ck, R, reads_of):
         for s in init.stmts(ast.Assign):
             for t in s.targets:
                 d = A.dotted(t) or ""
-                if d.startswith("self.") and d.count(".") == 1 and any(isinstance(b, ast.Name) and b.id in init.fi.params and b.id != "self" for b in _branches(s.value)):
+                if d.startswith("self.") and d.count(".") == 1 and any(isinstance(b, ast.Name) and b.id in init.fi.params and b.id != "self"
+                                                                       for b in _value_roots(init, s.value, (init.nodes(s) or [None])[0])):
                     fields.add(d[5:])
         for field in sorted(fields):
             shape = _field_shape(ck, cls, init, field)
@@ -2298,19 +2364,7 @@ def check(ck):
                       "documented option %r is not written by to_dict: an environment rebuilt from its dump loses it" % opt, td.where())
             # what is dumped under an option is read off the field that holds that option (not off the field of another
             # option: a dump that writes the data path as the metadata path rebuilds a different backend)
-            holders = _option_fields(ck, cls, doc)
-            for e in entries:
-                if e.key not in holders or e.value is None:
-                    continue
-                got = _self_fields_read(td, e.value, e.stmt)
-                if not got:
-                    continue
-                okh = bool(got & holders[e.key])
-                ck.ob(R1, "%s::dumped-from-its-field::%s" % (cls.qual, e.key), okh,
-                      "option %r is dumped from the field that holds it" % e.key if okh else
-                      "to_dict writes option %r from %s, while the constructor keeps that option in %s: the environment rebuilt from the dump "
-                      "gets another option's value for it" % (e.key, sorted("self." + g for g in got), sorted("self." + h for h in holders[e.key])),
-                      td.where(e.stmt))
+            _dumped_from_fields(ck, R1, cls, td, entries, doc)
             if init is not None:
                 for p in init.params:
                     if p in ("self", "config"):
@@ -2448,7 +2502,9 @@ def check(ck):
         reads = _config_reads(ck, cls, membership=True)
         reads_of[clsname] = reads
         td = _FA(ck, cls.methods["to_dict"])
-        dumped = {e.key for e in _dump_entries(td)}
+        centries = _dump_entries(td)
+        dumped = {e.key for e in centries}
+        _dumped_from_fields(ck, R1, cls, td, centries, reads)
         ok = reads == dumped
         ck.ob(R1, cls.qual + "::read-equals-dumped", ok, "%s reads and dumps the same keys %s" % (clsname, sorted(reads)) if ok else
               "%s reads %s from its configuration but dumps %s" % (clsname, sorted(reads - dumped) or "{}", sorted(dumped - reads) or "{}"), td.where())
